@@ -47,6 +47,13 @@ type c04Cfg struct {
 	exch                   []c04Exch
 	res                    []c04Res
 	outside                [][2]int // token, path
+	// how the scenario is driven (invisible to a correct implementation, not part of the Coq configuration):
+	// lazy: the wire QUEUES messages as objects - a message produced by Handle / handed to the callback of Do is
+	// serialised only when the network first touches it (deliver / dup / drop / replay) or at the end of the run,
+	// so block messages of several transfers exist side by side before any of their bodies is read;
+	// split: the peer A runs the transfer of every token in a BlockWise of its own (a peer is free to use any
+	// tokens at the same time; B - one BlockWise, one connection - is what is examined)
+	lazy, split bool
 }
 type c04Ev struct {
 	op  byte // S D U X R B T E, and virtual time: A (arg seconds pass, nothing is swept) W (CheckExpirations now at side arg)
@@ -140,6 +147,16 @@ type c04Side struct {
 type c04Flight struct {
 	toB  bool
 	data []byte
+	// queued wire (cfg.lazy): the message object, not yet serialised; pm is the projection the observation
+	// of the emitting event points to (filled in when the message is serialised); owner is the pending Do
+	// whose callback holds the message (it has to be serialised before that callback returns)
+	msg   *pool.Message
+	pm    *c04PM
+	owner *c04Pending
+}
+type c04First struct {
+	data []byte
+	msg  *pool.Message
 }
 type c04DoResult struct {
 	msg *pool.Message
@@ -148,7 +165,7 @@ type c04DoResult struct {
 type c04Pending struct {
 	idx   int
 	tok   int
-	first chan []byte
+	first chan c04First
 	resp  chan c04DoResult
 	done  chan error
 }
@@ -160,8 +177,10 @@ var errC04Timeout = errors.New("timeout")
 type c04World struct {
 	cfg     *c04Cfg
 	a, b    *c04Side
-	flight  []c04Flight
-	hist    []c04Flight
+	as      []*c04Side // the BlockWise instances of peer A (one unless cfg.split); a = as[0]
+	toks    []int      // distinct tokens of the configuration, in order of first use
+	flight  []*c04Flight
+	hist    []*c04Flight
 	vers    map[int]int
 	pending []*c04Pending
 	fresh   map[string]int64
@@ -181,12 +200,22 @@ func newC04World(cfg *c04Cfg) *c04World {
 		s.bw = blockwise.New(cl, c04Expiration, func(error) { w.curErr++ }, outside)
 		return s
 	}
-	w.a = mk(cfg.szxA, cfg.maxA, func(tok message.Token) (*pool.Message, bool) {
-		if len(tok) != 1 {
+	for _, x := range cfg.exch {
+		known := false
+		for _, t := range w.toks {
+			known = known || t == x.tok
+		}
+		if !known {
+			w.toks = append(w.toks, x.tok)
+		}
+	}
+	outsideA := func(tok message.Token) (*pool.Message, bool) {
+		name, ok := c04TokName(tok)
+		if !ok {
 			return nil, false
 		}
 		for _, o := range cfg.outside {
-			if o[0] == int(tok[0]) {
+			if o[0] == name {
 				m := w.a.cl.AcquireMessage(context.Background())
 				m.SetCode(codes.GET)
 				m.SetToken(tok)
@@ -196,14 +225,37 @@ func newC04World(cfg *c04Cfg) *c04World {
 			}
 		}
 		return nil, false
-	})
+	}
+	na := 1
+	if cfg.split && len(w.toks) > 1 {
+		na = len(w.toks)
+	}
+	for i := 0; i < na; i++ {
+		w.as = append(w.as, mk(cfg.szxA, cfg.maxA, outsideA))
+	}
+	w.a = w.as[0]
 	w.b = mk(cfg.szxB, cfg.maxB, nil)
 	return w
 }
 
+// aFor: the BlockWise of peer A that runs the transfers of this token
+func (w *c04World) aFor(tok message.Token) *c04Side {
+	if len(w.as) == 1 {
+		return w.a
+	}
+	if name, ok := c04TokName(tok); ok {
+		for i, t := range w.toks {
+			if t == name {
+				return w.as[i%len(w.as)]
+			}
+		}
+	}
+	return w.a
+}
+
 func (w *c04World) tokName(t message.Token) int64 {
-	if len(t) == 1 {
-		return int64(t[0])
+	if name, ok := c04TokName(t); ok {
+		return int64(name)
 	}
 	k := string(t)
 	if v, ok := w.fresh[k]; ok {
@@ -280,7 +332,7 @@ func c04Unmarshal(data []byte) (*pool.Message, error) {
 }
 
 func (w *c04World) emit(toB bool, data []byte) *c04PM {
-	f := c04Flight{toB, data}
+	f := &c04Flight{toB: toB, data: data}
 	w.flight = append(w.flight, f)
 	w.hist = append(w.hist, f)
 	m, err := c04Unmarshal(data)
@@ -290,8 +342,58 @@ func (w *c04World) emit(toB bool, data []byte) *c04PM {
 	return w.project(m)
 }
 
+// emitLazy queues the message object; its bytes are taken when the network first touches it
+func (w *c04World) emitLazy(toB bool, m *pool.Message, owner *c04Pending) *c04PM {
+	f := &c04Flight{toB: toB, msg: m, pm: &c04PM{}, owner: owner}
+	w.flight = append(w.flight, f)
+	w.hist = append(w.hist, f)
+	// private tokens are named in the order in which they are drawn, not in the order of serialisation
+	w.tokName(m.Token())
+	return f.pm
+}
+
+func (w *c04World) materialise(f *c04Flight) {
+	if f.msg == nil {
+		return
+	}
+	m := f.msg
+	f.msg, f.owner = nil, nil
+	var d []byte
+	var err error
+	if c04Guarded(func() { d, err = c04Marshal(m) }) != 0 || err != nil {
+		*f.pm = c04PM{code: -1, length: -1}
+		return
+	}
+	f.data = d
+	um, errU := c04Unmarshal(d)
+	if errU != nil {
+		*f.pm = c04PM{code: -1, length: -1}
+		return
+	}
+	*f.pm = *w.project(um)
+}
+
+// materialiseOwned serialises what the callback of a pending Do still holds, before that callback returns
+func (w *c04World) materialiseOwned(pd *c04Pending) {
+	for _, f := range w.hist {
+		if f.owner == pd {
+			w.materialise(f)
+		}
+	}
+}
+
+func (w *c04World) materialiseAll() {
+	for _, f := range w.hist {
+		w.materialise(f)
+	}
+}
+
 func (w *c04World) sizes() [4]int {
-	sa, ra := w.a.bw.VerifTableSizes()
+	sa, ra := 0, 0
+	for _, s := range w.as {
+		x, y := s.bw.VerifTableSizes()
+		sa, ra = sa+x, ra+y
+	}
 	sb, rb := w.b.bw.VerifTableSizes()
 	return [4]int{sa, ra, sb, rb}
 }
@@ -377,8 +479,9 @@ func (w *c04World) appA(_ *responsewriter.ResponseWriter[*c04Client], r *pool.Me
 }
 
 // arrive hands one wire message to Handle of its destination
-func (w *c04World) arrive(f c04Flight) *c04Obs {
+func (w *c04World) arrive(f *c04Flight) *c04Obs {
 	o := &c04Obs{side: 0}
+	w.materialise(f)
 	s := w.a
 	next := w.appA
 	if f.toB {
@@ -393,13 +496,21 @@ func (w *c04World) arrive(f c04Flight) *c04Obs {
 		return o
 	}
 	o.in = w.project(r)
+	if !f.toB {
+		s = w.aFor(r.Token())
+	}
 	var out []byte
+	var outMsg *pool.Message
 	o.bad = c04Guarded(func() {
 		orig := s.cl.AcquireMessage(context.Background())
 		orig.SetToken(r.Token())
 		rw := responsewriter.New(orig, s.cl, r.Options()...)
 		s.bw.Handle(rw, r, s.szx, s.max, next)
 		if rw.Message().IsModified() {
+			if w.cfg.lazy {
+				outMsg = rw.Message()
+				return
+			}
 			d, errM := c04Marshal(rw.Message())
 			if errM != nil {
 				panic(errM)
@@ -425,6 +536,7 @@ func (w *c04World) arrive(f c04Flight) *c04Obs {
 			still = append(still, pd)
 			continue
 		}
+		w.materialiseOwned(pd)
 		pd.resp <- c04DoResult{w.curResp[pd.idx], nil}
 		select {
 		case <-pd.done:
@@ -435,7 +547,10 @@ func (w *c04World) arrive(f c04Flight) *c04Obs {
 		}
 	}
 	w.pending = still
-	if out != nil {
+	if outMsg != nil {
+		o.toB = !f.toB
+		o.wire = w.emitLazy(o.toB, outMsg, nil)
+	} else if out != nil {
 		o.toB = !f.toB
 		o.wire = w.emit(o.toB, out)
 	}
@@ -446,7 +561,7 @@ func (w *c04World) arrive(f c04Flight) *c04Obs {
 func (w *c04World) request(x c04Exch) *pool.Message {
 	m := pool.NewMessage(context.Background())
 	m.SetCode(codes.Code(x.code))
-	m.SetToken(message.Token{byte(x.tok)})
+	m.SetToken(c04TokBytes(x.tok))
 	m.SetOptionBytes(message.URIPath, []byte{byte(x.path)})
 	if x.length > 0 {
 		m.SetBody(bytes.NewReader(genBody(x.salt, x.length)))
@@ -462,7 +577,7 @@ func (w *c04World) notification(x c04Exch) *pool.Message {
 	v := w.vers[x.path]
 	m := pool.NewMessage(context.Background())
 	m.SetCode(codes.Code(x.code))
-	m.SetToken(message.Token{byte(x.tok)})
+	m.SetToken(c04TokBytes(x.tok))
 	if res.etag {
 		m.SetOptionBytes(message.ETag, []byte{byte(v + 1)})
 	}
@@ -484,20 +599,27 @@ func (w *c04World) start(i int) *c04Obs {
 	w.curErr = 0
 	switch x.kind {
 	case 0:
-		pd := &c04Pending{idx: i, tok: x.tok, first: make(chan []byte, 1), resp: make(chan c04DoResult, 1), done: make(chan error, 1)}
+		pd := &c04Pending{idx: i, tok: x.tok, first: make(chan c04First, 1), resp: make(chan c04DoResult, 1), done: make(chan error, 1)}
 		req := w.request(x)
+		sa := w.aFor(req.Token())
 		go func() {
 			defer func() {
 				if r := recover(); r != nil {
 					pd.done <- fmt.Errorf("panic: %v", r)
 				}
 			}()
-			_, err := w.a.bw.Do(req, w.a.szx, w.a.max, func(bwReq *pool.Message) (*pool.Message, error) {
-				d, errM := c04Marshal(bwReq)
-				if errM != nil {
-					return nil, errM
+			_, err := sa.bw.Do(req, sa.szx, sa.max, func(bwReq *pool.Message) (*pool.Message, error) {
+				if w.cfg.lazy {
+					// the request stays with this callback until the response (or the time-out) arrives;
+					// the wire takes its bytes when it first touches it, at the latest before this returns
+					pd.first <- c04First{msg: bwReq}
+				} else {
+					d, errM := c04Marshal(bwReq)
+					if errM != nil {
+						return nil, errM
+					}
+					pd.first <- c04First{data: d}
 				}
-				pd.first <- d
 				r := <-pd.resp
 				return r.msg, r.err
 			})
@@ -507,7 +629,11 @@ func (w *c04World) start(i int) *c04Obs {
 		case d := <-pd.first:
 			w.pending = append(w.pending, pd)
 			o.toB = true
-			o.wire = w.emit(true, d)
+			if d.msg != nil {
+				o.wire = w.emitLazy(true, d.msg, pd)
+			} else {
+				o.wire = w.emit(true, d.data)
+			}
 		case err := <-pd.done:
 			if err != nil && strings.HasPrefix(err.Error(), "panic:") {
 				o.bad = 1
@@ -521,6 +647,7 @@ func (w *c04World) start(i int) *c04Obs {
 		var req *pool.Message
 		if x.kind == 1 {
 			req = w.request(x)
+			s = w.aFor(req.Token())
 		} else {
 			s, toB = w.b, false
 			req = w.notification(x)
@@ -557,6 +684,7 @@ func (w *c04World) timeout(i int) *c04Obs {
 			still = append(still, pd)
 			continue
 		}
+		w.materialiseOwned(pd)
 		pd.resp <- c04DoResult{nil, errC04Timeout}
 		select {
 		case <-pd.done:
@@ -570,8 +698,8 @@ func (w *c04World) timeout(i int) *c04Obs {
 	return o
 }
 
-func removeAt(f []c04Flight, j int) []c04Flight {
-	r := append([]c04Flight(nil), f[:j]...)
+func removeAt(f []*c04Flight, j int) []*c04Flight {
+	r := append([]*c04Flight(nil), f[:j]...)
 	return append(r, f[j+1:]...)
 }
 
@@ -594,6 +722,7 @@ func (w *c04World) apply(e c04Ev) *c04Obs {
 		return w.arrive(w.flight[e.arg])
 	case 'X':
 		if e.arg < len(w.flight) {
+			w.materialise(w.flight[e.arg])
 			w.flight = removeAt(w.flight, e.arg)
 		}
 		return quiet()
@@ -608,33 +737,39 @@ func (w *c04World) apply(e c04Ev) *c04Obs {
 	case 'T':
 		return w.timeout(e.arg)
 	case 'E':
-		s := w.a
-		if e.arg == 1 {
-			s = w.b
+		for _, s := range w.sidesOf(e.arg) {
+			s.bw.CheckExpirations(time.Now().Add(2 * c04Expiration))
 		}
-		s.bw.CheckExpirations(time.Now().Add(2 * c04Expiration))
 		return quiet()
 	case 'A':
 		// virtual time: instead of waiting, the deadlines of everything both endpoints hold move into the past
 		d := time.Duration(e.arg) * time.Second
 		if d > 0 {
-			w.a.bw.VerifShiftDeadlines(d)
+			for _, s := range w.as {
+				s.bw.VerifShiftDeadlines(d)
+			}
 			w.b.bw.VerifShiftDeadlines(d)
 		}
 		return quiet()
 	case 'W':
-		s := w.a
-		if e.arg == 1 {
-			s = w.b
+		for _, s := range w.sidesOf(e.arg) {
+			s.bw.CheckExpirations(time.Now())
 		}
-		s.bw.CheckExpirations(time.Now())
 		return quiet()
 	}
 	return quiet()
 }
 
+func (w *c04World) sidesOf(arg int) []*c04Side {
+	if arg == 1 {
+		return []*c04Side{w.b}
+	}
+	return w.as
+}
+
 // release lets goroutines of Do calls that are still pending end
 func (w *c04World) release() {
+	w.materialiseAll()
 	for _, pd := range w.pending {
 		pd.resp <- c04DoResult{nil, errC04Timeout}
 	}
@@ -689,7 +824,14 @@ func (c *c04Cfg) coq() string {
 // descriptor: re-parsable one-line form of configuration + script
 func c04Desc(c *c04Cfg, evs []c04Ev) string {
 	var sb strings.Builder
-	fmt.Fprintf(&sb, "c04 %d %d %d %d |", c.szxA, c.maxA, c.szxB, c.maxB)
+	head := "c04"
+	if c.lazy {
+		head += "q"
+	}
+	if c.split {
+		head += "s"
+	}
+	fmt.Fprintf(&sb, "%s %d %d %d %d |", head, c.szxA, c.maxA, c.szxB, c.maxB)
 	for _, x := range c.exch {
 		fmt.Fprintf(&sb, " x%d,%d,%d,%d,%d,%d,%d", x.kind, x.code, x.tok, x.path, x.salt, x.length, x.obs)
 	}
@@ -730,6 +872,17 @@ func c04ParseDesc(s string) (*c04Cfg, []c04Ev, error) {
 		return nil, nil, fmt.Errorf("bad descriptor head")
 	}
 	c := &c04Cfg{}
+	switch h[0] {
+	case "c04":
+	case "c04q":
+		c.lazy = true
+	case "c04s":
+		c.split = true
+	case "c04qs":
+		c.lazy, c.split = true, true
+	default:
+		return nil, nil, fmt.Errorf("bad descriptor head")
+	}
 	c.szxA, _ = strconv.Atoi(h[1])
 	c.maxA, _ = strconv.Atoi(h[2])
 	c.szxB, _ = strconv.Atoi(h[3])
@@ -759,6 +912,8 @@ func c04ParseDesc(s string) (*c04Cfg, []c04Ev, error) {
 // a policy picks the next event from what is visible; ok=false ends the script
 type c04Policy func(w *c04World, step int) (c04Ev, bool)
 
+var c04OneP bool
+
 type c04Result struct {
 	evs       []c04Ev
 	obs       []*c04Obs
@@ -768,6 +923,14 @@ type c04Result struct {
 }
 
 func c04Run(cfg *c04Cfg, pol c04Policy) *c04Result {
+	if cfg.lazy && !c04OneP {
+		// queued wire: one scheduler context (see c04WithOneP), also when a single case is replayed
+		var r *c04Result
+		c04OneP = true
+		c04WithOneP(func() { r = c04Run(cfg, pol) })
+		c04OneP = false
+		return r
+	}
 	w := newC04World(cfg)
 	res := &c04Result{}
 	for step := 0; step < 400; step++ {
@@ -1064,7 +1227,10 @@ func runC04(a runArgs) error {
 	e := NewEmitter("C04", "Blockwise.Run")
 	e.ShardSize = 260
 	e.MaxBytes = 300000
-	e.Rule = "a case = configuration (SZX/max message size of both sides, exchanges, resources) + explicit event script (start/deliver/dup/drop/replay/bump/timeout/expire) run on two real blockwise.BlockWise instances joined by a marshalling relay; distinct = distinct configuration+script; non-trivial = at least one wire message carried a Block1/Block2 option (a block-wise transfer actually took place)."
+	e.Rule = "a case = configuration (SZX/max message size of both sides, exchanges, resources) + explicit event script (start/deliver/dup/drop/replay/bump/timeout/expire) run on two real blockwise.BlockWise instances joined by a marshalling relay (c04q: the relay queues message objects and serialises them when the network first touches them; c04s: peer A runs each token in a BlockWise of its own); distinct = distinct configuration+script; non-trivial = at least one wire message carried a Block1/Block2 option (a block-wise transfer actually took place)."
+	if err := c04CheckTokTable(); err != nil {
+		return err
+	}
 	if a.only != "" {
 		cfg, evs, err := c04ParseDesc(a.only)
 		if err != nil {
@@ -1304,6 +1470,9 @@ func runC04(a runArgs) error {
 	}
 	c04RestartFamily(e, thorough)
 	c04ExpiryFamily(e, thorough)
+	// concurrent transfers with different tokens never mix: similar-but-distinct tokens, queued wire
+	c04SimilarTokensFamily(e, thorough)
+	c04QueuedWireFamily(e, rng.Fork(), thorough)
 	return e.Flush(a.out)
 }
 
